@@ -40,6 +40,7 @@ SKP = "wannierberri/system/system_kp.py"
 DKKF = "wannierberri/data_K/data_K_k.py"
 KNB = "wannierberri/wannierisation/kpoint_and_neighbours.py"
 WANF = "wannierberri/wannierisation/wannierise.py"
+SYMW = "wannierberri/symmetry/sym_wann_2.py"
 ORBF = "wannierberri/symmetry/orbitals.py"
 MUTANTS = [
     dict(prop="C21", name="d shell: x2-y2 row with a plus", file=ORBF, old="                orb_rot_mat[3, i] = (subs[3] - subs[5]).evalf()", new="                orb_rot_mat[3, i] = (subs[3] + subs[5]).evalf()"),
@@ -81,6 +82,20 @@ MUTANTS = [
     dict(prop="C32", name="Haldane_tbm: one second-neighbour hop with the opposite flux", file="wannierberri/models.py", old="    my_model.add_hop(t2, 1, 1, [0, 1])", new="    my_model.add_hop(t2c, 1, 1, [0, 1])"),
     dict(prop="C32", name="Haldane_ptb: a nearest-neighbour bond to the wrong cell", file="wannierberri/models.py", old="    my_model.set_hop(hop1, 1, 0, [0, 1])", new="    my_model.set_hop(hop1, 1, 0, [1, 1])"),
     dict(prop="C32", name="PRESERVING: Haldane_ptb hop written from the other end", file="wannierberri/models.py", old="    my_model.set_hop(hop1, 1, 0, [0, 1])", new="    my_model.set_hop(hop1, 0, 1, [0, -1])", expect="ok"),
+    dict(prop="C20", name="average: normalised by the number of operations minus one", file=SYMW, old="                        v /= len(self.use_symmetries_index)", new="                        v /= max(1, len(self.use_symmetries_index) - 1)"),
+    dict(prop="C20", name="backward rotation: time reversal without conjugation", file=SYMW, old="                result = result.conj() * self.parity_TR[X]", new="                result = result * self.parity_TR[X]"),
+    dict(prop="C20", name="backward rotation: left and right orbital matrices of the same atom", file=SYMW, old="                                R=self.symmetrizer_right.rot_orb_list[block2][atom_b, isym])", new="                                R=self.symmetrizer_right.rot_orb_list[block2][atom_a % self.symmetrizer_right.rot_orb_list[block2].shape[0], isym])"),
+    dict(prop="C20", name="atom R map: translations of the two atoms added instead of subtracted", file=SYMW, old="            atom_R_map = (R_map[:, None, None, :] + T1[None, :, None, :] - T2[None, None, :, :])", new="            atom_R_map = (R_map[:, None, None, :] + T1[None, :, None, :] + T2[None, None, :, :])"),
+    dict(prop="C20", name="AA treated as even under inversion", file=SYMW, old="            'Ham': 1,\n            'AA': -1,", new="            'Ham': 1,\n            'AA': 1,"),
+    dict(prop="C20", name="irreducible search: strict comparison drops self-mapped pairs", file=SYMW, old="                    if (a1, b1) >= (a, b):", new="                    if (a1, b1) > (a, b):"),
+    dict(prop="C20", name="vector rotation applied to the wrong Cartesian axis", file=SYMW, old="                XX_L = np.tensordot(XX_L, rot_mat_loc, axes=((-n_cart,), (0,)))", new="                XX_L = np.tensordot(XX_L, rot_mat_loc, axes=((-n_cart,), (1,)))"),
+    dict(prop="C20", name="centre pass: translation back to the home cell dropped", file="wannierberri/symmetry/sawf.py", old="                        XX_L = symop.transform_r(XX_L) + T[atom_a]", new="                        XX_L = symop.transform_r(XX_L)"),
+    dict(prop="C20", name="centre pass: written to the source atom instead of its image", file="wannierberri/symmetry/sawf.py", old="                    WCC_red_out[start_b:start_b + norb] += transformed", new="                    WCC_red_out[start_a:start_a + norb] += transformed"),
+    dict(prop="C20", name="driver: R-vectors shifted by the OLD centres", file=SYSR, old="        self.wannier_centers_cart = symmetrizer.symmetrize_WCC(self.wannier_centers_cart)\n        print(f\"number o R-vectors after symmetrization: {len(iRvec)}\")\n        self.clear_cached_wcc()\n        rvec_new = Rvectors(\n            lattice=self.real_lattice,\n            iRvec=iRvec,\n            shifts_left_red=self.wannier_centers_red,",
+         new="        wcc_red_old = self.wannier_centers_red\n        self.wannier_centers_cart = symmetrizer.symmetrize_WCC(self.wannier_centers_cart)\n        print(f\"number o R-vectors after symmetrization: {len(iRvec)}\")\n        self.clear_cached_wcc()\n        rvec_new = Rvectors(\n            lattice=self.real_lattice,\n            iRvec=iRvec,\n            shifts_left_red=wcc_red_old,"),
+    dict(prop="C20", name="driver: centres not symmetrised", file=SYSR, old="        self.wannier_centers_cart = symmetrizer.symmetrize_WCC(self.wannier_centers_cart)\n        print(f\"number o R-vectors after", new="        self.wannier_centers_cart = self.wannier_centers_cart * 1.0\n        print(f\"number o R-vectors after"),
+    dict(prop="C20", name="driver: use_symmetries_index not passed to the point group", file=SYSR, old="        self.set_pointgroup(spacegroup=symmetrizer.spacegroup, use_symmetries_index=use_symmetries_index)", new="        self.set_pointgroup(spacegroup=symmetrizer.spacegroup)"),
+    dict(prop="C20", expect="ok", name="PRESERVING: _rotate_matrix via two tensordots", file=SYMW, old="    return cached_einsum(\"ij,jk...,kl->il...\", L, X, R)", new="    _ = np.tensordot(L, X, axes=((1,), (0,)))\n    _ = np.tensordot(R, _, axes=((0,), (1,)))\n    return np.moveaxis(_, 0, 1)"),
     dict(prop="C08", name="Morb_H declared even under TR", file=COV, old="        self.E = data_K.E_K\n        self.ndim = 1\n        self.transformTR = transform_odd", new="        self.E = data_K.E_K\n        self.ndim = 1\n        self.transformTR = transform_ident"),
     dict(prop="C08", name="Der3E declared even under inversion", file=COV, old="        self.ndim = 3\n        self.transformTR = transform_odd\n        self.transformInv = transform_odd", new="        self.ndim = 3\n        self.transformTR = transform_odd\n        self.transformInv = transform_ident"),
     dict(prop="C08", name="get_transform_TR: SS even", file=DK, old="    elif name in ['CC', 'FF', 'OO', 'GG', 'SS', 'rotAA', 'rotAAab', 'CCab_antisym']:  # odd before derivative\n        p = 1", new="    elif name in ['CC', 'FF', 'OO', 'GG', 'rotAA', 'rotAAab', 'CCab_antisym']:  # odd before derivative\n        p = 1\n    elif name in ['SS']:\n        p = 0"),
